@@ -516,6 +516,15 @@ func checkCompilePanics(e *Env, m *e1Model, fns []*ssa.Function) {
 			r.OK("E6.panic", key, posStr, why)
 			continue
 		}
+		{
+			symWhy, symOK := "", false
+			withCallSites(fns, func() { symWhy, symOK = symbolicBound(site.Instr) })
+			if symOK {
+				nGuarded++
+				r.OK("E6.panic", key, posStr, symWhy)
+				continue
+			}
+		}
 		r.Bad("E6.panic", key, posStr, "an index or slice expression on the compile path outside the patcher has no dominating guard that implies its bound: a policy value can make the compiler panic instead of returning an error")
 	}
 	// type assertions / explicit panics / nil-map stores outside the patcher
